@@ -282,6 +282,30 @@ impl Property for C16 {
                 ctx.stats.probe("two_transcripts_refused");
             }
         }
+        // ---- failed attempts leave nothing behind. Above, collections led by this sharing's own shares were
+        // (rightly) refused; here a damaged copy of the collection is refused as well - one byte of the first
+        // share's encrypted coins or message altered, tag J intact. The SAME genuine collection must then still
+        // recover, on the same thread, exactly as it did before.
+        if tid == 0 && t >= 1 && d_own >= t as usize {
+            let mut wire = own[0].to_bytes();
+            let n = wire.len();
+            let at = if rl > 0 { Some(n - 64 - 1) } else if ml > 0 { Some(n - 64 - 4 - 1) } else { None };
+            if let Some(at) = at {
+                wire[at] ^= 0x01;
+                if let Some(s) = Share::from_bytes(&wire) {
+                    let mut coll = own.clone();
+                    coll[0] = s;
+                    if recover(&coll).is_err() {
+                        ctx.stats.fault("failed_recovery_before_valid_one");
+                    }
+                }
+            }
+            match recover(&own) {
+                Ok(c) if c.get_message() == m => ctx.stats.probe("recovers_again_after_failed_attempts"),
+                Ok(_) => return Err(Violation::new("c16.recover", "wrong_message_after_failed_attempt", "after refused collections, the genuine collection recovered another message")),
+                Err(e) => return Err(Violation::new("c16.recover", "recover_err_after_failed_attempt", format!("the genuine collection ({} distinct shares, t={}) recovered before, but after refused collections (foreign transcript mixed in / one ciphertext byte altered) it no longer does: {}", d_own, t, e))),
+            }
+        }
         Ok(())
     }
     fn real_components(&self) -> Vec<&'static str> {
